@@ -43,6 +43,10 @@ class FakeResp:
       raise Boom('HTTP 503')
 
 
+class Killed(BaseException):
+  pass
+
+
 def payload_of(size):
   return bytes((i * 7 + 3) % 251 for i in range(size)) if size < 4096 else os.urandom(size)
 
@@ -98,11 +102,17 @@ def check_lzma(inp):
     with lzma.open(src, 'wb') as f:
       f.write(content)
     final = os.path.join(d, 'data.bin')
+    if inp.get('stale') is not None:
+      # what a killed process (no handler runs) leaves behind: the temporary file with some prefix or junk in it
+      with open(final + '.partial', 'wb') as f:
+        f.write(b'\xff' * inp['stale'])
     real_copy = downloads.shutil.copyfileobj
     if fail_after is not None:
       def bad_copy(fi, fo, *a):
         fo.write(fi.read(fail_after))
         fo.flush()
+        if inp.get('kind') == 'interrupt':
+          raise Killed('Ctrl-C / SystemExit / kill: not an Exception')
         raise Boom('disk full / interrupted')
       downloads.shutil.copyfileobj = bad_copy
     # what is ON DISK under the temporary name when it is renamed is what a kill right after the rename leaves behind
@@ -116,8 +126,13 @@ def check_lzma(inp):
     try:
       try:
         downloads.maybe_lzma_decompress(src)
-      except Boom:
+      except (Boom, Killed):
         pass
+      except Exception as e:   # pylint: disable=broad-except
+        if fail_after is None:
+          return (f'a call that met no I/O error failed with {type(e).__name__}: {e} '
+                  f'(stale .partial of {inp.get("stale")} bytes from an earlier crash): the cache is never repaired')
+        raise
     finally:
       downloads.shutil.copyfileobj = real_copy
       downloads.os.rename = real_rename
@@ -127,7 +142,11 @@ def check_lzma(inp):
     if os.path.exists(final) and open(final, 'rb').read() != content:
       return (f'interrupted decompression after {fail_after} bytes left {final} with '
               f'{os.path.getsize(final)} of {size} bytes under the final name')
-    got = downloads.maybe_lzma_decompress(src)
+    try:
+      got = downloads.maybe_lzma_decompress(src)
+    except Exception as e:   # pylint: disable=broad-except
+      return (f'after an interruption ({inp.get("kind", "oserror")}) at {fail_after} bytes every later call fails with '
+              f'{type(e).__name__}: {e}: the cache is never repaired')
     if got != final or open(final, 'rb').read() != content:
       return 'a later call did not repair the decompressed file'
 
@@ -137,6 +156,9 @@ def sweep_lzma(tier, seed):
     yield dict(size=size, fail_after=None)
     for fa in (0, 1, size // 2, max(size - 1, 0)):
       yield dict(size=size, fail_after=fa)
+      yield dict(size=size, fail_after=fa, kind='interrupt')
+    for stale in (0, 7, size + 5):
+      yield dict(size=size, fail_after=None, stale=stale)
 
 
 def check_validate(inp):
